@@ -193,6 +193,9 @@ fn format_expression_internal(
     context: ExpressionContext,
     shape: Shape,
 ) -> Expression {
+    #[cfg(stylua_verif)]
+    crate::verif::EXPRESSIONS.with(|c| c.set(c.get() + 1));
+
     match expression {
         Expression::Function(anonymous_function) => {
             Expression::Function(format_anonymous_function(ctx, anonymous_function, shape))
